@@ -61,6 +61,8 @@ def check(ctx):
                 if isinstance(x, ast.Call):
                     return not (isinstance(x.func, ast.Name) and x.func.id in ('min', 'max', 'abs', 'round', 'float', 'int', 'timedelta', 'datetime')) \
                         and not parse_cap(x) and not sched._resv_call(x)
+                if isinstance(x, ast.Subscript) and isinstance(x.value, ast.Name) and x.value.id not in f.params and x.value.id not in stop:
+                    return True         # an entry of a local table (a per-call memo of capacities keyed by the day): not followed
                 return False
             caps_ = [x for x in ast.walk(amt) if parse_cap(x)]
             if caps_:
